@@ -6,7 +6,24 @@
    DecodePatch validates nothing, Equal compares string SPELLINGS, output is always HTML-escaped. *)
 From JP Require Import Bytes Json Text Strings Den Pointer ImplV5 ImplMerge.
 
-(* nodes reuse ImplV5.node; in NDoc the key list is unused (always []) *)
+(* nodes reuse ImplV5.node.  A live partialDoc is NDoc [] obj (the key list of a live map is always []).
+   The legacy package has FOUR nodes that are written as null, and it tells them apart (observed by
+   running the package, see V4NullWalk.v):
+     NNil        a nil *lazyNode: a null the decoder read in a document or inside a composite value,
+                 an absent member read by get, the value of an operation without a value member;
+     NRaw TNull  a lazyNode with raw == nil (raw_nil4): the operation value null (json.Unmarshal sets
+                 the *RawMessage of the Operation map to nil).  findObject does not enter it, isNull
+                 holds, test against an operation WITHOUT value fails (the node is not nil);
+     raw_null4   a lazyNode whose raw message is the four bytes null, which == eRaw: what deepCopy makes
+                 of every non-nil node that marshals as null.  isNull holds; findObject ENTERS it:
+                 intoDoc unmarshals null into the nil map without error and sets which = eDoc;
+     nil_doc4    which == eDoc with a nil map: raw_null4 after a walk went through it.  Not isNull;
+                 equal to {}; get gives nil, add/set give ErrInvalid, remove ErrMissing (like the
+                 root document null, DDocNil); still marshalled as null.
+   The last two are NDoc with a NON-EMPTY key list and no members: the key list is the tag. *)
+Definition raw_nil4 : node := NRaw TNull.
+Definition raw_null4 : node := NDoc [B "null"] [].   (* tag: a non-empty first entry *)
+Definition nil_doc4 : node := NDoc [[]] [].          (* tag: an empty first entry *)
 
 Record opts4 := mkOpts4 { g_neg : bool; g_limit : Z; g_nullsz : option Z }.
 
@@ -19,10 +36,11 @@ Fixpoint render4 (n : node) : tjson :=
   match n with
   | NNil => TNull
   | NRaw t => t
-  | NDoc _ obj =>
+  | NDoc [] obj =>
       TObj (map (fun kv => (quote true (fst kv), snd kv))
                 (fold_left (fun acc kv => insert_sorted kv acc)
                            (map (fun kv => (fst kv, render4 (snd kv))) obj) []))
+  | NDoc (_ :: _) _ => TNull        (* raw_null4, nil_doc4: json.Marshal of the text null / of a nil map *)
   | NAry ns => TArr (map render4 ns)
   end.
 
@@ -34,7 +52,7 @@ Inductive con4 :=
 Definition node_of_con4 (c : con4) : node :=
   match c with
   | DDoc obj => NDoc [] obj
-  | DDocNil => NDoc [] []
+  | DDocNil => nil_doc4
   | DAry ns => NAry ns
   end.
 
@@ -80,12 +98,14 @@ Definition con4_remove (g : opts4) (c : con4) (key : bytes) : res con4 :=
       end
   end.
 
-(* findObject: next == nil || err != nil || next.raw == nil -> nil; isArray(raw) ? intoAry : intoDoc *)
+(* findObject: next == nil || err != nil || next.raw == nil -> nil; isArray(raw) ? intoAry : intoDoc.
+   intoDoc of the raw text null succeeds: json.Unmarshal("null", &n.doc) leaves the nil map *)
 Definition into_con4 (n : node) : option con4 :=
   match n with
   | NRaw (TObj ms) => Some (DDoc (obj_of ms))
   | NRaw (TArr l) => Some (DAry (map child l))
-  | NDoc _ obj => Some (DDoc obj)
+  | NDoc [] obj => Some (DDoc obj)
+  | NDoc (_ :: _) _ => Some DDocNil
   | NAry ns => Some (DAry ns)
   | _ => None
   end.
@@ -125,7 +145,17 @@ Definition find4 {A} (g : opts4) (c : con4) (path : bytes) (f : con4 -> bytes ->
   end.
 
 (* equal: strings by spelling *)
+(* n == nil (pruneNulls of merge.go, val == nil of test) *)
 Definition is_null4 (n : node) : bool := match n with NNil => true | _ => false end.
+
+(* isNull: n == nil, or which == eRaw and (raw == nil or the raw text is null) *)
+Definition null4 (n : node) : bool :=
+  match n with
+  | NNil => true
+  | NRaw TNull => true
+  | NDoc ((_ :: _) :: _) _ => true
+  | _ => false
+  end.
 
 Definition shape4 (n : node) : shape :=
   match n with
@@ -141,7 +171,7 @@ Fixpoint equal4 (fuel : nat) (n o : node) {struct fuel} : bool :=
   match fuel with
   | O => false
   | S f =>
-      if is_null4 n || is_null4 o then is_null4 n && is_null4 o else
+      if null4 n || null4 o then null4 n && null4 o else
       match shape4 n, shape4 o with
       | SLeaf a, SLeaf b => bseq (print false a) (print false b)
       | SLeaf _, _ => false
@@ -165,10 +195,10 @@ Fixpoint equal4 (fuel : nat) (n o : node) {struct fuel} : bool :=
 
 Definition node_equal4 (n o : node) : bool := equal4 (nsize n + nsize o) n o.
 
-(* op.value(): a null value member is a node with a nil raw message: modelled as NNil *)
+(* op.value(): a null value member is a node with a nil raw message (raw_nil4), not the nil node *)
 Definition op_value4 (op : operation) : option node :=
   match aget (B "value") op with
-  | Some None => Some NNil
+  | Some None => Some raw_nil4
   | Some (Some t) => Some (NRaw t)
   | None => None
   end.
@@ -178,7 +208,9 @@ Record state4 := mkState4 { r4 : con4; acc4 : Z }.
 Definition deep_copy4 (g : opts4) (n : node) : node * Z :=
   match n with
   | NNil => (NNil, match g_nullsz g with Some z => z | None => 0%Z end)
-  | _ => let t := render4 n in (NRaw (escape_tree true t), zlen (print true t))
+  | _ => let t := render4 n in
+         (* a node that marshals as null (raw_nil4, raw_null4, nil_doc4) is copied as the raw text null *)
+         (match t with TNull => raw_null4 | _ => NRaw (escape_tree true t) end, zlen (print true t))
   end.
 
 Definition lift4 {A} (r : option (res A) * con4) (st : state4) (k : A -> con4 -> res state4) : res state4 :=
@@ -278,7 +310,8 @@ Definition step4 (g : opts4) (st : state4) (op : operation) : res state4 :=
           lift4 (find4 g c path (fun c' key =>
                                    match con4_get g c' key with
                                    | Ok v =>
-                                       if is_null4 v then ((if is_null4 vnode then Ok tt else Err ETestFailed), c')
+                                       (* val == nil: passes iff op.value() == nil || op.value().raw == nil *)
+                                       if is_null4 v then ((if null4 vnode then Ok tt else Err ETestFailed), c')
                                        else match op_value4 op with
                                             | None => (Err ETestFailed, c')
                                             | Some ov => ((if node_equal4 v ov then Ok tt else Err ETestFailed), c')
@@ -348,6 +381,47 @@ Definition api_apply4 (g : opts4) (indent : bytes) (p : list operation) (doc : b
               end
           end
       end
+  end.
+
+(* ---- a domain test for the simulation against RFC 6902 (V4ApplySim.v), kept with the model so that
+   the correspondence oracle can extract it: no copy of the run is handed the operation value null
+   (raw_nil4).  deepCopy stores the raw text null for it, and a later path through that member is
+   walked like an empty object, where RFC 6902 says the path does not exist. ---- *)
+(* the node a copy hands to deepCopy: the source, read again after the walk to the destination *)
+Definition copy_arg4 (g : opts4) (st : state4) (op : operation) : option node :=
+  match op_str op (B "from"), op_str op (B "path") with
+  | Ok from, Ok path =>
+      match find4 g (r4 st) from (fun c' key => (con4_get g c' key, c')) with
+      | (Some (Ok _), c1) =>
+          match find4 g c1 path (fun c' key => (tt, c')) with
+          | (Some _, c2) =>
+              match find4 g c2 from (fun c' key => (con4_get g c' key, c')) with
+              | (Some (Ok v), _) => Some v
+              | _ => None
+              end
+          | (None, _) => None
+          end
+      | _ => None
+      end
+  | _, _ => None
+  end.
+
+Definition is_raw_nil4 (o : option node) : bool := match o with Some (NRaw TNull) => true | _ => false end.
+
+Fixpoint no_null_copy4 (g : opts4) (st : state4) (p : list operation) : bool :=
+  match p with
+  | [] => true
+  | op :: rest =>
+      negb (match op_kind op with KCopy => is_raw_nil4 (copy_arg4 g st op) | _ => false end) &&
+      match step4 g st op with Ok st' => no_null_copy4 g st' rest | _ => true end
+  end.
+
+(* the same from the bytes of the document, as Apply starts *)
+Definition api_no_null_copy4 (g : opts4) (p : list operation) (doc : bytes) : bool :=
+  match parse doc with
+  | Some (TObj ms) => no_null_copy4 g (mkState4 (DDoc (obj_of ms)) 0) p
+  | Some (TArr l) => no_null_copy4 g (mkState4 (DAry (map child l)) 0) p
+  | _ => true
   end.
 
 (* ---- merge.go ---- *)
